@@ -1,4 +1,5 @@
 import ViaProofs.ConnLemmas
+import ViaProofs.ConnWrites
 /-
   C03 — each request gets exactly one complete response, in order, in every schedule.
 
@@ -38,5 +39,16 @@ theorem C03_overlap_is_refused (w : World) (i : Nat) (bufs : List Buf) (ht : (w.
   unfold sendData
   simp only [ht, ↓reduceIte]
   refine ⟨trivial, ?_, ?_⟩ <;> rfl
+
+/-- TRACE LEVEL: after every history at most ONE write is in flight per connection (responses can therefore not be
+    interleaved on the wire: the adaptor is never given a second buffer sequence before the first has completed), and a
+    write in flight implies `transmitting_` (so any further send in that window is the refused one of
+    `C03_overlap_is_refused`, the known finding, and nothing else). -/
+theorem C03_partial_one_write_in_flight (serverOptions : List String) (history : List (List String)) (i : Nat) :
+    let w := history.foldl simOp (mkServer serverOptions)
+    (w.get i).writes.length ≤ 1 ∧ ((w.get i).writes ≠ [] → (w.get i).transmitting = true) := by
+  intro w
+  obtain ⟨h1, h2, _⟩ := winv_get (history_winv serverOptions history) i
+  exact ⟨h1, h2⟩
 
 end Via
